@@ -11,7 +11,6 @@ NOTE = "Trusts go/types + go/ssa (x/tools v0.29.0), the rule tables in /verif/ch
 NOT_APPLICABLE = {
     "C02": "Iterator positioning is a function of runtime keys/bounds and the iterPos state machine; no clause is visible in the shape of the code without re-deriving the algorithm (value-level).",
     "C09": "The masking rule s <= r < p is three comparisons on runtime suffixes; deciding it needs the comparer's semantics (solver territory, different technique family).",
-    "C14": "What a compaction writes is value-level; its structural prerequisites are decided under C03 (snapshots reach the compaction iterator), C04/C39 (views pin files) and C17 (stripes/zeroing). No clause of its own.",
     "C15": "The level invariant is over runtime key bounds and sequence numbers; the code ensuring it is arithmetic on those. CheckOrdering is a runtime detector, not a structural necessary condition.",
     "C16": "Pure data-structure algorithm over runtime intervals (L0 sublevels); no structural clause.",
     "C25": "SSTable round trip is value-level over runtime keys and writer options.",
